@@ -203,10 +203,15 @@ def generic_replay(pl, classes=ALL_CLASSES, fingerprint=None):
     return [{'cls': c, 'detail': d, 'fingerprint': fp} for c, d in found]
 
 
-def file_path_problem(src, W, stack=500, unchecked=False):
+LOCALES = ('utf-8', 'ascii', 'latin-1', 'cp1252')
+
+
+def file_path_problem(src, W, stack=500, unchecked=False, stats=None):
     """The same source through the command-line tool (read from a file of a fake file system,
     SourceCode.from_file) must give byte for byte the assembly the API gives for the string
-    (SourceCode.from_string).  -> (class, detail) or None"""
+    (SourceCode.from_string) - in every process environment: the fake file system decodes a text-mode
+    open() that names no encoding with the simulated locale encoding, as CPython does, and the build must
+    not depend on it (a source with non-ASCII text is tried under four locales).  -> (class, detail) or None"""
     from ..clisim import FakeFS, run_cli
     from .. import hidc_api
     try:
@@ -214,16 +219,22 @@ def file_path_problem(src, W, stack=500, unchecked=False):
     except Exception:   # noqa: BLE001 - rejected or internal: judged elsewhere
         return None
     want = b''.join(l + b'\n' for l in lines)
-    fs = FakeFS({'in.hid': src.encode('utf-8')})
-    args = ['in.hid', '-o', 'out.s', f'-m{8 * W}', f'-s{stack}'] + (['--unchecked'] if unchecked else [])
-    r = run_cli(args, fs)
-    got = fs.files.get('out.s')
-    if r.exception is not None or r.status != 0 or got is None:
-        return ('file-path-differs', f'the API compiles this source but the command-line tool reading it from a file does not: '
-                                     f'status {r.status}, {type(r.exception).__name__ if r.exception else r.stderr[:200]!r}')
-    if got != want:
-        i = next((k for k, (a, b) in enumerate(zip(got, want)) if a != b), min(len(got), len(want)))
-        lo = want.rfind(b'\n', 0, i) + 1
-        return ('file-path-differs', f'assembly from the file differs from the assembly from the string at byte {i}: '
-                                     f'file {got[lo:lo + 80]!r} vs string {want[lo:lo + 80]!r}')
+    data = src.encode('utf-8')
+    for loc in (LOCALES if any(b >= 0x80 for b in data) else LOCALES[:1]):
+        fs = FakeFS({'in.hid': data}, locale_encoding=loc)
+        args = ['in.hid', '-o', 'out.s', f'-m{8 * W}', f'-s{stack}'] + (['--unchecked'] if unchecked else [])
+        r = run_cli(args, fs)
+        got = fs.files.get('out.s')
+        if stats is not None and loc != 'utf-8':
+            stats['locale:' + loc] = stats.get('locale:' + loc, 0) + 1
+        cls = 'file-path-differs' if loc == 'utf-8' else 'locale-changes-build'
+        where = '' if loc == 'utf-8' else f' in a process whose locale encoding is {loc}'
+        if r.exception is not None or r.status != 0 or got is None:
+            return (cls, f'the API compiles this source but the command-line tool reading it from a file{where} does not: '
+                         f'status {r.status}, {type(r.exception).__name__ if r.exception else r.stderr[-200:]!r}')
+        if got != want:
+            i = next((k for k, (a, b) in enumerate(zip(got, want)) if a != b), min(len(got), len(want)))
+            lo = want.rfind(b'\n', 0, i) + 1
+            return (cls, f'assembly from the file{where} differs from the assembly from the string at byte {i}: '
+                         f'file {got[lo:lo + 80]!r} vs string {want[lo:lo + 80]!r}')
     return None
